@@ -404,6 +404,24 @@ def imaging_auto_padding_triples(data, noise, mask, psf, pixel_scales, origin, v
     got, msg = triples(ds, how)
     if msg:
         return msg
+    if via_apply_mask and int((~mask).sum()) >= 2:
+        # the same mask reached through a chain of re-maskings (mask A hides one more pixel, mask B hides nothing, then the mask):
+        # every apply_mask starts from the unmasked data, so the triples are those of applying the mask directly
+        A = mask.copy()
+        ys_, xs_ = np.nonzero(~mask)
+        A[ys_[0], xs_[0]] = True
+        B = np.zeros(mask.shape, dtype=bool)
+        try:
+            chain = full.apply_mask(mask=aa.Mask2D(mask=A, pixel_scales=pixel_scales, origin=origin)) \
+                .apply_mask(mask=aa.Mask2D(mask=B, pixel_scales=pixel_scales, origin=origin)) \
+                .apply_mask(mask=aa.Mask2D(mask=mask.copy(), pixel_scales=pixel_scales, origin=origin))
+        except Exception as e:
+            return "apply_mask(A).apply_mask(B).apply_mask(mask) raised %s: %s (a single apply_mask(mask) works)" % (type(e).__name__, str(e)[:200])
+        got_c, msg = triples(chain, "apply_mask(A).apply_mask(B).apply_mask(mask)")
+        if msg:
+            return msg
+        if got_c.shape != got.shape or not np.array_equal(got_c, got):
+            return "apply_mask(A).apply_mask(B).apply_mask(mask): triples %r differ from those of apply_mask(mask) %r" % (got_c.tolist(), got.tolist())
     shp = tuple(ds.data.shape_native)
     if shp not in ((H, W), (H + ky - 1, W + kx - 1)):
         return "%s: dataset shape %r is neither the input shape %r nor the PSF-padded shape %r" % (how, shp, (H, W), (H + ky - 1, W + kx - 1))
